@@ -797,3 +797,94 @@ func VerifCollectReports(p VerifParseArgs, reports []VerifReport, earlyExit bool
 	res.NumAuditErrors = len(col.st.errors)
 	return res
 }
+
+// VerifCmdEvent is something that happens to a running command.
+type VerifCmdEvent struct {
+	// AtMs is the time after the start of the command.
+	AtMs int
+	// Kind is "stop" (the stopper quiesces), "cancel" (context
+	// cancelled) or "term" (the prompter's termination channel closes).
+	Kind string
+}
+
+// VerifCmdOut is what runActorCommandWithConsumer did.
+type VerifCmdOut struct {
+	ElapsedMs  int
+	ExitStatus string
+	Success    bool
+	Err        string
+	Lines      []string
+	Hung       bool
+}
+
+// VerifRunCommand runs the real runActorCommandWithConsumer on a
+// script (an executable file) in workDir, delivering the events.
+func VerifRunCommand(
+	script, workDir string, timeoutMs int, interruptible bool, useTermCh bool, events []VerifCmdEvent, hangLimitMs int,
+) (res VerifCmdOut) {
+	ctx, cancel := context.WithCancel(context.Background())
+	defer cancel()
+	stopper := stop.NewStopper()
+	var termCh chan struct{}
+	if useTermCh {
+		termCh = make(chan struct{})
+	}
+	a := &actor{name: "verif", workDir: workDir}
+	start := time.Now()
+	done := make(chan struct{})
+	var mu sync.Mutex
+	go func() {
+		defer close(done)
+		defer func() {
+			if r := recover(); r != nil {
+				res.Err = fmt.Sprintf("panic: %v", r)
+			}
+		}()
+		ps, err, exitErr := a.runActorCommandWithConsumer(ctx, stopper, time.Duration(timeoutMs)*time.Millisecond,
+			interruptible, script, termCh, func(line string) error {
+				mu.Lock()
+				res.Lines = append(res.Lines, strings.TrimSpace(line))
+				mu.Unlock()
+				return nil
+			})
+		if ps != nil {
+			res.ExitStatus = ps.String()
+			res.Success = ps.Success()
+		}
+		if err != nil {
+			res.Err = fmt.Sprintf("%v", err)
+		} else if exitErr != nil {
+			res.Err = ""
+		}
+	}()
+	for _, ev := range events {
+		ev := ev
+		go func() {
+			select {
+			case <-time.After(time.Duration(ev.AtMs) * time.Millisecond):
+			case <-done:
+				return
+			}
+			switch ev.Kind {
+			case "stop":
+				go stopper.Stop(context.Background())
+			case "cancel":
+				cancel()
+			case "term":
+				if termCh != nil {
+					close(termCh)
+				}
+			}
+		}()
+	}
+	select {
+	case <-done:
+	case <-time.After(time.Duration(hangLimitMs) * time.Millisecond):
+		res.Hung = true
+	}
+	res.ElapsedMs = int(time.Since(start) / time.Millisecond)
+	if !res.Hung {
+		stopper.Stop(context.Background())
+	}
+	return res
+}
